@@ -296,11 +296,18 @@ class Inliner:
         return X().visit(e)
 
     # -------------------------------------------------------------- statements
-    def _splice(self, h, m, tail):
+    def _splice(self, h, m, tail, result_name=None):
         """statements of the helper with params substituted and locals renamed; ``tail(value)`` builds what replaces a
-        trailing ``return value`` (None: drop it)"""
+        trailing ``return value`` (None: drop it).  ``result_name``: the helper ends in ``return L`` (a local it built) and the call site
+        is ``result_name = h(...)`` - the local simply takes the name it is assigned to"""
         self.count += 1
         rename = {x: f'{x}_h{self.count}' for x in h.locals_()}
+        last = h.body[-1]
+        if result_name is not None and isinstance(last, ast.Return) and isinstance(last.value, ast.Name) and last.value.id in rename \
+                and result_name not in rename.values() and result_name not in h.params + h.kwonly \
+                and not any(isinstance(v, ast.AST) and any(isinstance(x, ast.Name) and x.id == result_name for x in ast.walk(v)) for v in m.values()):
+            rename[last.value.id] = result_name
+            tail = lambda v: None  # noqa: E731
         body = [(_Subst(m, rename).visit(copy.deepcopy(st))) for st in h.body]
         out = []
         for st in body:
@@ -354,7 +361,8 @@ class Inliner:
         if kind == 'assign':
             if not has_value:
                 return None
-            return self._splice(h, m, lambda v: ast.Assign(targets=st.targets, value=v))
+            tname = st.targets[0].id if isinstance(st.targets[0], ast.Name) else None
+            return self._splice(h, m, lambda v: ast.Assign(targets=st.targets, value=v), result_name=tname)
         if kind == 'return':
             return self._splice(h, m, lambda v: ast.Return(value=v))
         return None
